@@ -16,6 +16,9 @@
  *              64 merge that consumes a duplicate (LYD_MERGE_DESTRUCT) equals the copying merge
  *             128 the duplicate validates and is unchanged by validation
  *             256 after the original is freed the duplicate still prints the same (independence)
+ *             512 lyd_dup_siblings INTO A POPULATED PARENT: the plain leaves at odd positions are copied into an empty copy of the
+ *                 container first, then all the remaining children (incl. every list / leaf-list run) are duplicated into it with ONE
+ *                 call: the parent must equal the original (content and sibling order)
  *   leakcheck */
 #define _GNU_SOURCE
 #include <libyang.h>
@@ -150,6 +153,33 @@ op_law(const char *id, const char *yanghex, const char *xmlhex, const char *via,
         LAW(4, "dup-lyb-prints", 0);
     }
     LAW(8, "dup-searchable", found_everywhere(t, d));
+
+    /* ---- dup of a sibling list into a parent that already has children */
+    {
+        struct lyd_node *orig = NULL, *par = NULL, *src = NULL, *ch, *next, *firstdup = NULL;
+        int k = 0, okp = 1;
+
+        if (t->schema && (t->schema->nodetype == LYS_CONTAINER) && lyd_child(t) &&
+                !lyd_dup_single(t, NULL, LYD_DUP_RECURSIVE | LYD_DUP_WITH_FLAGS, &orig) &&
+                !lyd_dup_single(t, NULL, LYD_DUP_RECURSIVE | LYD_DUP_WITH_FLAGS, &src) &&
+                !lyd_dup_single(t, NULL, LYD_DUP_WITH_FLAGS, &par)) {
+            LY_LIST_FOR_SAFE(lyd_child(src), next, ch) {
+                if (ch->schema && (ch->schema->nodetype == LYS_LEAF) && (k++ % 2)) {
+                    if (lyd_dup_single(ch, par, LYD_DUP_RECURSIVE | LYD_DUP_WITH_FLAGS, NULL)) okp = 0;
+                    lyd_free_tree(ch);
+                }
+            }
+            if (okp && lyd_child(src)) {
+                if (lyd_dup_siblings(lyd_child(src), par, dopts | LYD_DUP_RECURSIVE | LYD_DUP_WITH_FLAGS, &firstdup)) okp = 0;
+            }
+            if (!(dopts & LYD_DUP_NO_META)) {
+                LAW(512, "dup-into-populated-parent", okp && equal_trees(orig, par) && same_print(orig, par, 0));
+            } else {
+                LAW(512, "dup-into-populated-parent", okp && lyd_compare_siblings(orig, par, LYD_COMPARE_FULL_RECURSION | LYD_COMPARE_DEFAULTS) == LY_SUCCESS);
+            }
+        }
+        lyd_free_all(orig); lyd_free_all(par); lyd_free_all(src);
+    }
 
     /* ---- merge */
     if (lyd_merge_siblings(&m, t, mopts & ~LYD_MERGE_DESTRUCT)) { stage = "Merge"; goto done; }
